@@ -1585,6 +1585,60 @@ func refusalOp(info *types.Info, fd *ast.FuncDecl, parents map[ast.Node]ast.Node
 			}
 			return op
 		case *ast.ReturnStmt, *ast.AssignStmt, *ast.ValueSpec, *ast.KeyValueExpr:
+			// the comparison defines a flag (`moved := a || n > c`) that is tested exactly once, in a condition: what it
+			// governs is what that condition governs
+			if as, isAs := p.(*ast.AssignStmt); isAs && len(as.Lhs) == 1 && len(as.Rhs) == 1 && as.Rhs[0] == cur && as.Tok == token.DEFINE {
+				if fid, ok := as.Lhs[0].(*ast.Ident); ok && info.Defs[fid] != nil {
+					o := info.Defs[fid]
+					var uses []*ast.Ident
+					reassigned := false
+					ast.Inspect(fd.Body, func(k ast.Node) bool {
+						switch x := k.(type) {
+						case *ast.Ident:
+							if info.Uses[x] == o {
+								uses = append(uses, x)
+							}
+						case *ast.AssignStmt:
+							if x != as {
+								for _, l := range x.Lhs {
+									if lid, ok := ast.Unparen(l).(*ast.Ident); ok && info.ObjectOf(lid) == o {
+										reassigned = true
+									}
+								}
+							}
+						}
+						return true
+					})
+					if !reassigned && len(uses) == 1 {
+						// only when the use stands in a condition (otherwise the value convention below applies)
+						inCond := false
+						var c2 ast.Node = uses[0]
+						for q := parents[c2]; q != nil; c2, q = q, parents[q] {
+							switch qx := q.(type) {
+							case *ast.ParenExpr:
+								continue
+							case *ast.UnaryExpr:
+								if qx.Op == token.NOT {
+									continue
+								}
+							case *ast.BinaryExpr:
+								if qx.Op == token.LAND || qx.Op == token.LOR {
+									continue
+								}
+							case *ast.IfStmt:
+								inCond = qx.Cond == c2
+							case *ast.ForStmt:
+								inCond = qx.Cond == c2
+							}
+							break
+						}
+						if inCond {
+							cur = uses[0]
+							continue
+						}
+					}
+				}
+			}
 			// a boolean VALUE (returned, stored): its polarity is fixed by what the value means; recorded as the
 			// operator under which the value is FALSE so that it shares the "refused when" vocabulary
 			op := negOp[be.Op]
